@@ -264,9 +264,9 @@ def explore_geo(item):
                 rep.violation("C17|geometry|movement.positive/negative", {"fn": "positive/negative", "candle": (O, H, L_, C)})
             # geometry is a function of the candle's CURRENT prices: mutate in place (swap open/close, as a merge or a
             # conversion would change them) and read again
-            cd.open, cd.close = C, O
-            want2 = {"realbody": abs(O - C), "shadow_upper": H - max(O, C), "shadow_lower": min(O, C) - L_, "high_low": H - L_,
-                     "positive": O > C, "negative": O < C}
+            cd.high, cd.close = H + k, O  # raise the high, flatten the body (still well-formed)
+            want2 = {"realbody": 0, "shadow_upper": (H + k) - O, "shadow_lower": O - L_, "high_low": (H + k) - L_,
+                     "positive": False, "negative": False}
             for f, w in want2.items():
                 if getattr(cd, f) != w:
                     rep.violation(f"C17|geometry-after-mutation|{f}", {"fn": f, "candle": (O, H, L_, C), "got": getattr(cd, f), "want": w})
